@@ -560,8 +560,20 @@ func (e *CEnv) call(n *CCall) Term {
 			q := fmt.Sprintf("q%d_i", *e.nq)
 			*e.nq++
 			q2 := fmt.Sprintf("q%d_i", *e.nq)
-			fa := "(forall ((" + q + " Int)) (! (=> (and (<= " + ao + " " + q + ") (< " + q + " (+ " + ao + " " + al + "))) (= (select " + aa + " " + q + ") (select " + ba + " (+ (- " + q + " " + ao + ") " + bo + ")))) :pattern ((select " + aa + " " + q + "))))"
-			fb := "(forall ((" + q2 + " Int)) (! (=> (and (<= " + bo + " " + q2 + ") (< " + q2 + " (+ " + bo + " " + bl + "))) (= (select " + ba + " " + q2 + ") (select " + aa + " (+ (- " + q2 + " " + bo + ") " + ao + ")))) :pattern ((select " + ba + " " + q2 + "))))"
+			pat := func(arr, v string) string {
+				if strings.Contains(arr, "(ite ") || strings.Contains(arr, "(let ") {
+					return "" // not allowed in patterns: the solver picks its own
+				}
+				return " :pattern ((select " + arr + " " + v + "))"
+			}
+			bang := func(body, p string) string {
+				if p == "" {
+					return body
+				}
+				return "(! " + body + p + ")"
+			}
+			fa := "(forall ((" + q + " Int)) " + bang("(=> (and (<= "+ao+" "+q+") (< "+q+" (+ "+ao+" "+al+"))) (= (select "+aa+" "+q+") (select "+ba+" (+ (- "+q+" "+ao+") "+bo+"))))", pat(aa, q)) + ")"
+			fb := "(forall ((" + q2 + " Int)) " + bang("(=> (and (<= "+bo+" "+q2+") (< "+q2+" (+ "+bo+" "+bl+"))) (= (select "+ba+" "+q2+") (select "+aa+" (+ (- "+q2+" "+bo+") "+ao+"))))", pat(ba, q2)) + ")"
 			return mkBool("(and (= " + al + " " + bl + ") " + fa + " " + fb + ")")
 		}
 	}
